@@ -143,7 +143,7 @@ theorem syncOne_simple (sp : Sys) (jo : JobObj) (s' : Sys) (rjF : Job) (hc : sp.
       else (s', true) := by
   unfold syncOne
   simp only [hc, hsync, hadm, ne_eq, not_true_eq_false, decide_false, Bool.or_self, Bool.false_eq_true, ↓reduceIte,
-    Bool.not_true, Bool.or_false]
+    Bool.not_true, Bool.or_false, statusBase_false]
   by_cases hd : rjF.status = jo.job.status
   · simp [hd]
   · simp only [hd, not_false_eq_true, decide_true, ↓reduceIte]
